@@ -40,6 +40,21 @@ void superlu_abort_and_exit(char *msg)
 #endif
 }
 #endif
+/* hooks added to /repo under XIAOYELI_SUPERLU_MT_VERIF (H1 pmemory.c, H2 await.c) */
+#ifndef VH_OWN_AWAIT
+void slu_mt_verif_await(volatile int_t *status)
+{   /* workers run one after the other here: nobody could release the column */
+    vh_assert(*status == 0, "await() on a column that no running worker will release");
+    vh_assume(*status == 0);
+}
+#endif
+#ifndef VH_OWN_LUSUP
+int_t vh_lusup_high;
+void slu_mt_verif_lusup(int_t jcol, int_t fsupc, int_t new_end, pxgstrf_shared_t *sh)
+{
+    if (new_end > vh_lusup_high) vh_lusup_high = new_end;
+}
+#endif
 #ifdef VH_CBMC
 char *getenv(const char *name)
 {
